@@ -82,18 +82,24 @@ Section CopySpec.
   Variable tol : Q.
   Variable rel : bool.
   Variable y : nat -> vec.
+  Variable ok : nat -> bool.
   Hypothesis Hprev : sf_prev F = PrevCopy.
   Hypothesis Hex : sf_exhaust F = ExhaustFail.
   Hypothesis Hshape : forall n, length (y n) = length (y 0%nat).
 
   Let c (n : nat) : bool := conv F tol rel (y n) (y (S n)).
+  Let bad (n : nat) : bool := step_aborts F ok n.
 
   Lemma ss_loop_copy_spec : forall fuel i t,
-    match ss_loop F tol rel y fuel i t (Held (y i)) with
+    match ss_loop F tol rel y ok fuel i t (Held (y i)) with
     | SSSteady t' v =>
-        exists n, (i <= n < i + fuel)%nat /\ c n = true /\ (forall m, (i <= m < n)%nat -> c m = false)
+        exists n, (i <= n < i + fuel)%nat /\ bad n = false /\ c n = true
+                  /\ (forall m, (i <= m < n)%nat -> bad m = false /\ c m = false)
                   /\ t' == t + inject_Z (sf_step F * Z.of_nat (n - i)) /\ v = y (S n)
-    | SSNoSteady => forall m, (i <= m < i + fuel)%nat -> c m = false
+    | SSNoSteady => forall m, (i <= m < i + fuel)%nat -> bad m = false /\ c m = false
+    | SSIntegFail =>
+        exists n, (i <= n < i + fuel)%nat /\ bad n = true
+                  /\ (forall m, (i <= m < n)%nat -> bad m = false /\ c m = false)
     | SSShape => False
     | SSUnknownFacts => False
     end.
@@ -101,25 +107,130 @@ Section CopySpec.
     induction fuel as [|fuel IH]; intros i t; cbn [ss_loop].
     - rewrite Hex. intros m Hm. lia.
     - assert (Hl : length (y i) = length (y (S i))) by (rewrite (Hshape i), (Hshape (S i)); reflexivity).
+      destruct (step_aborts F ok i) eqn:Eb.
+      { exists i. split; [lia|]. split; [exact Eb|]. intros m Hm. lia. }
       destruct (conv_test_cases F tol rel (y i) (y (S i)) Hl) as [[E Ec] | [E Ec]]; rewrite E.
-      + exists i. split; [lia|]. split; [exact Ec|]. split; [intros m Hm; lia|]. split; [|reflexivity].
+      + exists i. split; [lia|]. split; [exact Eb|]. split; [exact Ec|]. split; [intros m Hm; lia|].
+        split; [|reflexivity].
         rewrite Nat.sub_diag. rewrite Z.mul_0_r. unfold inject_Z. ring.
       + rewrite Hprev. specialize (IH (S i) (t + inject_Z (sf_step F))).
-        destruct (ss_loop F tol rel y fuel (S i) (t + inject_Z (sf_step F)) (Held (y (S i)))) as [t' v| | |].
-        * destruct IH as [n [Hn [Hcn [Hleast [Ht Hv]]]]].
-          exists n. split; [lia|]. split; [exact Hcn|]. split; [|split; [|exact Hv]].
-          -- intros m Hm. destruct (Nat.eq_dec m i) as [->|Hne]; [exact Ec | apply Hleast; lia].
+        destruct (ss_loop F tol rel y ok fuel (S i) (t + inject_Z (sf_step F)) (Held (y (S i)))) as [t' v| | | |].
+        * destruct IH as [n [Hn [Hbn [Hcn [Hleast [Ht Hv]]]]]].
+          exists n. split; [lia|]. split; [exact Hbn|]. split; [exact Hcn|]. split; [|split; [|exact Hv]].
+          -- intros m Hm. destruct (Nat.eq_dec m i) as [->|Hne]; [split; [exact Eb | exact Ec] | apply Hleast; lia].
           -- rewrite Ht. replace (n - i)%nat with (S (n - S i))%nat by lia.
              rewrite Nat2Z.inj_succ. unfold Z.succ. rewrite Z.mul_add_distr_l, Z.mul_1_r.
              rewrite !inject_Z_plus. ring.
-        * intros m Hm. destruct (Nat.eq_dec m i) as [->|Hne]; [exact Ec | apply IH; lia].
+        * intros m Hm. destruct (Nat.eq_dec m i) as [->|Hne]; [split; [exact Eb | exact Ec] | apply IH; lia].
         * exact IH.
         * exact IH.
+        * destruct IH as [n [Hn [Hbn Hleast]]]. exists n. split; [lia|]. split; [exact Hbn|].
+          intros m Hm. destruct (Nat.eq_dec m i) as [->|Hne]; [split; [exact Eb | exact Ec] | apply Hleast; lia].
   Qed.
 End CopySpec.
 
 Definition CopyFacts (F : ss_facts) : Prop :=
   facts_known F = true /\ sf_prev F = PrevCopy /\ sf_exhaust F = ExhaustFail.
+
+(** the loop reads [ok] only through [step_aborts] *)
+Lemma ss_loop_ext F tol rel y ok ok' :
+  (forall n, step_aborts F ok n = step_aborts F ok' n) ->
+  forall fuel i t p, ss_loop F tol rel y ok fuel i t p = ss_loop F tol rel y ok' fuel i t p.
+Proof.
+  intros H. induction fuel as [|fuel IH]; intros i t p; cbn [ss_loop]; [reflexivity|].
+  rewrite (H i). destruct (step_aborts F ok' i); [reflexivity|].
+  destruct (conv_test F tol rel _ _); try reflexivity. apply IH.
+Qed.
+
+Lemma step_aborts_all_ok F n : step_aborts F all_ok n = false.
+Proof. unfold step_aborts, all_ok. destruct (sf_succ F); reflexivity. Qed.
+
+(** *** the general run (any success flags) *)
+Section RunSpecS.
+  Variable F : ss_facts.
+  Hypothesis HF : CopyFacts F.
+  Variable tol : Q.
+  Variable rel : bool.
+  Variable y : nat -> vec.
+  Variable ok : nat -> bool.
+  Hypothesis Hshape : forall n, length (y n) = length (y 0%nat).
+
+  Let c (n : nat) : bool := conv F tol rel (y n) (y (S n)).
+  Let bad (n : nat) : bool := step_aborts F ok n.
+  Let N := N.to_nat (sf_max_steps F).
+
+  Lemma run_s_cases :
+    match ss_run_s F tol rel (y 0%nat) y ok with
+    | SSSteady t v =>
+        exists n, (n < N)%nat /\ bad n = false /\ c n = true
+                  /\ (forall m, (m < n)%nat -> bad m = false /\ c m = false)
+                  /\ t == time_of F n /\ v = y (S n)
+    | SSNoSteady => forall m, (m < N)%nat -> bad m = false /\ c m = false
+    | SSIntegFail =>
+        exists n, (n < N)%nat /\ bad n = true /\ (forall m, (m < n)%nat -> bad m = false /\ c m = false)
+    | SSShape => False
+    | SSUnknownFacts => False
+    end.
+  Proof.
+    destruct HF as [Hk [Hp He]]. unfold ss_run_s. rewrite Hk.
+    pose proof (ss_loop_copy_spec F tol rel y ok Hp He Hshape N 0 (0 + inject_Z (sf_step F))) as H.
+    fold N. destruct (ss_loop F tol rel y ok N 0 (0 + inject_Z (sf_step F)) (Held (y 0%nat))) as [t v| | | |].
+    - destruct H as [n [Hn [Hbn [Hcn [Hl [Ht Hv]]]]]]. exists n.
+      split; [lia|]. split; [exact Hbn|]. split; [exact Hcn|]. split; [|split; [|exact Hv]].
+      + intros m Hm. apply Hl. lia.
+      + rewrite Ht. unfold time_of. rewrite Nat.sub_0_r, Nat2Z.inj_succ. unfold Z.succ.
+        rewrite Z.mul_add_distr_l, Z.mul_1_r, !inject_Z_plus. ring.
+    - intros m Hm. apply H. lia.
+    - exact H.
+    - exact H.
+    - destruct H as [n [Hn [Hbn Hl]]]. exists n. split; [lia|]. split; [exact Hbn|].
+      intros m Hm. apply Hl. lia.
+  Qed.
+
+  (** the outcome is determined by the first step that aborts or converges *)
+  Lemma run_s_steady_complete n :
+    (n < N)%nat -> bad n = false -> c n = true -> (forall m, (m < n)%nat -> bad m = false /\ c m = false) ->
+    exists t, ss_run_s F tol rel (y 0%nat) y ok = SSSteady t (y (S n)) /\ t == time_of F n.
+  Proof.
+    intros Hn Hbn Hcn Hl. pose proof run_s_cases as H.
+    destruct (ss_run_s F tol rel (y 0%nat) y ok) as [t v| | | |]; try contradiction.
+    - destruct H as [n' [Hn' [Hbn' [Hcn' [Hl' [Ht Hv]]]]]].
+      assert (n' = n).
+      { destruct (lt_eq_lt_dec n' n) as [[Hlt|Heq]|Hgt]; [|exact Heq|].
+        - destruct (Hl n' Hlt) as [_ Hc']. rewrite Hc' in Hcn'. discriminate.
+        - destruct (Hl' n Hgt) as [_ Hc']. rewrite Hc' in Hcn. discriminate. }
+      subst n'. exists t. split; [rewrite Hv; reflexivity | exact Ht].
+    - destruct (H n Hn) as [_ Hc']. rewrite Hc' in Hcn. discriminate.
+    - destruct H as [n' [Hn' [Hbn' Hl']]].
+      destruct (lt_eq_lt_dec n' n) as [[Hlt|Heq]|Hgt].
+      + destruct (Hl n' Hlt) as [Hb' _]. rewrite Hb' in Hbn'. discriminate.
+      + subst n'. rewrite Hbn in Hbn'. discriminate.
+      + destruct (Hl' n Hgt) as [_ Hc']. rewrite Hc' in Hcn. discriminate.
+  Qed.
+
+  Lemma run_s_fail_complete n :
+    (n < N)%nat -> bad n = true -> (forall m, (m < n)%nat -> bad m = false /\ c m = false) ->
+    ss_run_s F tol rel (y 0%nat) y ok = SSIntegFail.
+  Proof.
+    intros Hn Hbn Hl. pose proof run_s_cases as H.
+    destruct (ss_run_s F tol rel (y 0%nat) y ok) as [t v| | | |]; try contradiction; [| |reflexivity].
+    - destruct H as [n' [Hn' [Hbn' [Hcn' [Hl' _]]]]].
+      destruct (lt_eq_lt_dec n' n) as [[Hlt|Heq]|Hgt].
+      + destruct (Hl n' Hlt) as [_ Hc']. rewrite Hc' in Hcn'. discriminate.
+      + subst n'. rewrite Hbn in Hbn'. discriminate.
+      + destruct (Hl' n Hgt) as [Hb' _]. rewrite Hb' in Hbn. discriminate.
+    - destruct (H n Hn) as [Hb' _]. rewrite Hb' in Hbn. discriminate.
+  Qed.
+
+  Lemma run_s_nosteady_complete :
+    (forall m, (m < N)%nat -> bad m = false /\ c m = false) -> ss_run_s F tol rel (y 0%nat) y ok = SSNoSteady.
+  Proof.
+    intros Hall. pose proof run_s_cases as H.
+    destruct (ss_run_s F tol rel (y 0%nat) y ok) as [t v| | | |]; try contradiction; [|reflexivity|].
+    - destruct H as [n [Hn [_ [Hcn _]]]]. destruct (Hall n Hn) as [_ Hc']. rewrite Hc' in Hcn. discriminate.
+    - destruct H as [n [Hn [Hbn _]]]. destruct (Hall n Hn) as [Hb' _]. rewrite Hb' in Hbn. discriminate.
+  Qed.
+End RunSpecS.
 
 Section RunSpec.
   Variable F : ss_facts.
@@ -140,19 +251,18 @@ Section RunSpec.
     | SSNoSteady => forall m, (m < N)%nat -> c m = false
     | SSShape => False
     | SSUnknownFacts => False
+    | SSIntegFail => False
     end.
   Proof.
-    destruct HF as [Hk [Hp He]]. unfold ss_run. rewrite Hk.
-    pose proof (ss_loop_copy_spec F tol rel y Hp He Hshape N 0 (0 + inject_Z (sf_step F))) as H.
-    fold N. destruct (ss_loop F tol rel y N 0 (0 + inject_Z (sf_step F)) (Held (y 0%nat))) as [t v| | |].
-    - destruct H as [n [Hn [Hcn [Hl [Ht Hv]]]]]. exists n.
-      split; [lia|]. split; [exact Hcn|]. split; [|split; [|exact Hv]].
-      + intros m Hm. apply Hl. lia.
-      + rewrite Ht. unfold time_of. rewrite Nat.sub_0_r, Nat2Z.inj_succ. unfold Z.succ.
-        rewrite Z.mul_add_distr_l, Z.mul_1_r, !inject_Z_plus. ring.
-    - intros m Hm. apply H. lia.
+    pose proof (run_s_cases F HF tol rel y all_ok Hshape) as H. unfold ss_run.
+    destruct (ss_run_s F tol rel (y 0%nat) y all_ok) as [t v| | | |].
+    - destruct H as [n [Hn [_ [Hcn [Hl [Ht Hv]]]]]]. exists n.
+      split; [exact Hn|]. split; [exact Hcn|]. split; [|split; [exact Ht | exact Hv]].
+      intros m Hm. apply (Hl m Hm).
+    - intros m Hm. apply (H m Hm).
     - exact H.
     - exact H.
+    - destruct H as [n [_ [Hbn _]]]. rewrite step_aborts_all_ok in Hbn. discriminate.
   Qed.
 
   (** success  <->  there is a least converging index below the budget, and it is the one reported *)
@@ -171,7 +281,7 @@ Section RunSpec.
     exists t, ss_run F tol rel (y 0%nat) y = SSSteady t (y (S n)) /\ t == time_of F n.
   Proof.
     intros Hn Hcn Hl. pose proof run_cases as H.
-    destruct (ss_run F tol rel (y 0%nat) y) as [t v| | |]; try contradiction.
+    destruct (ss_run F tol rel (y 0%nat) y) as [t v| | | |]; try contradiction.
     - destruct H as [n' [Hn' [Hcn' [Hl' [Ht Hv]]]]].
       assert (n' = n).
       { destruct (lt_eq_lt_dec n' n) as [[Hlt|Heq]|Hgt]; [|exact Heq|].
@@ -185,7 +295,7 @@ Section RunSpec.
     (forall m, (m < N)%nat -> c m = false) -> ss_run F tol rel (y 0%nat) y = SSNoSteady.
   Proof.
     intros Hall. pose proof run_cases as H.
-    destruct (ss_run F tol rel (y 0%nat) y) as [t v| | |]; try contradiction; [|reflexivity].
+    destruct (ss_run F tol rel (y 0%nat) y) as [t v| | | |]; try contradiction; [|reflexivity].
     destruct H as [n [Hn [Hcn _]]]. rewrite (Hall n Hn) in Hcn. discriminate.
   Qed.
 
@@ -194,6 +304,11 @@ Section RunSpec.
   Proof.
     pose proof run_cases as H.
     destruct (ss_run F tol rel (y 0%nat) y); split; try discriminate; try contradiction.
+  Qed.
+
+  Lemma run_never_integfail : ss_run F tol rel (y 0%nat) y <> SSIntegFail.
+  Proof.
+    pose proof run_cases as H. destruct (ss_run F tol rel (y 0%nat) y); try discriminate; contradiction.
   Qed.
 End RunSpec.
 
@@ -262,8 +377,9 @@ Lemma alias_always_steady F (HF : AliasFacts F) tol (y : nat -> vec) :
   (exists t, ss_run F tol false (y 0%nat) y = SSSteady t (y 1%nat) /\ t == inject_Z (sf_step F))
   \/ (exists t, ss_run F tol false (y 0%nat) y = SSSteady t (y 2%nat) /\ t == inject_Z (2 * sf_step F)).
 Proof.
-  intros Htol Hs HN. destruct HF as [Hk [Hp HL]]. unfold ss_run. rewrite Hk.
+  intros Htol Hs HN. destruct HF as [Hk [Hp HL]]. unfold ss_run, ss_run_s. rewrite Hk.
   destruct (N.to_nat (sf_max_steps F)) as [|[|k]]; try lia. cbn [ss_loop].
+  rewrite !step_aborts_all_ok.
   assert (Hl : length (y 0%nat) = length (y 1%nat)) by (rewrite (Hs 1%nat); reflexivity).
   destruct (conv_test_cases F tol false (y 0%nat) (y 1%nat) Hl) as [[E _] | [E _]]; rewrite E.
   - left. eexists. split; [reflexivity | ring].
